@@ -5,6 +5,7 @@ package main
 import (
 	"fmt"
 	"go/token"
+	"strings"
 
 	"golang.org/x/tools/go/ssa"
 )
@@ -118,4 +119,51 @@ func indexForm(v ssa.Value) string {
 		}
 	}
 	return "expr"
+}
+
+// c01ReportLast: a worker goroutine that hands its result to the operation over a channel does nothing
+// to the ledger or the cluster afterwards: the receiver acts on the report at once (records the
+// failure, rolls back), and a later write by the worker would land on top of that with stale data.
+func c01ReportLast(w *World, r *Report, rule string) {
+	ef := NewEffects(w)
+	n := 0
+	for _, fn := range w.FuncsIn("pkg/action") {
+		if strings.HasSuffix(w.FileOf(fn), "_test.go") || isNewFunc(fn) {
+			continue
+		}
+		g := FullGraph(fn)
+		reps := reporterExits(g)
+		if len(reps) == 0 {
+			continue
+		}
+		r.Fn(FuncName(fn))
+		var effects []ssa.CallInstruction
+		for _, c := range callInstrs(fn) {
+			if ef.CallEffect(c.Common())&(WStore|WCluster) != 0 {
+				effects = append(effects, c)
+			}
+		}
+		seen := map[string]int{}
+		for _, rep := range reps {
+			n++
+			bad := ""
+			for _, c := range effects {
+				if c == rep.Instr {
+					continue
+				}
+				if ex, _ := g.PathExists(rep.At, posOf(c), Avoid{}); ex {
+					bad = w.InstrPos(c)
+				}
+			}
+			key := fmt.Sprintf("%s/line-order", siteKey(Site{fn, rep.Instr.(ssa.CallInstruction), rep.At}))
+			seen[key]++
+			if seen[key] > 1 {
+				key = fmt.Sprintf("%s@%d", key, seen[key])
+			}
+			r.Check(bad == "", rule, key, w.InstrPos(rep.Instr), "nothing is written after the result was reported", "after the result was handed to the operation the worker still writes to the ledger or the cluster at "+bad+": the operation reacts to the report at once (failure record, atomic rollback) and this late write overwrites what it did with stale data")
+		}
+	}
+	if n == 0 {
+		r.Unk(rule, "no-site", "-", "no worker reporting over a channel found in pkg/action")
+	}
 }
